@@ -134,6 +134,9 @@ def run(rep, tier, seed):
         order = ctxs + decoys
         if decoys and rnd.random() < 0.5:
             order = decoys + ctxs
+        elif decoys and len(ctxs) > 1:
+            # the contexts of an interface need not be contiguous in the list given to the front end
+            order = ctxs[:1] + decoys[:1] + ctxs[1:] + decoys[1:]
         if rnd.random() < 0.5:
             order = [Context.from_json(c.json()) for c in order]
             rep.hist['front-end-contexts-loaded-from-json'] = rep.hist.get('front-end-contexts-loaded-from-json', 0) + 1
